@@ -455,10 +455,13 @@ def new_ltf_plan(**args):
         
         # The bmin constraint must always be respected
         if fbin < bmin:
-            fres = fi / bmin
-            dftlen = int(fs/fres) # Recalculate L if bmin was enforced
-            fbin = bmin
+            dftlen = int(np.round(fs * bmin / fi)) # Recalculate L if bmin was enforced
+            dftlen = min(max(dftlen, Lmin), N)
             nseg = min(int(np.round((N - dftlen) / (xov * dftlen) + 1)), N - dftlen + 1)
+            if nseg == 1:
+                dftlen = N
+            fres = fs / dftlen
+            fbin = fi / fres
 
 
         # --- C. Store results and update state for the next iteration ---
